@@ -1,11 +1,13 @@
 #!/bin/sh
-# Re-evaluates every kept seeded change with the current checks (each in its own scratch worktree).
+# Re-evaluates every kept seeded change with the current checks (each in its own scratch worktree),
+# latest round first.
 # usage: tools/reeval_all.sh [parallel jobs, default 3]   -> /tmp/ev/reeval.txt
 cd "$(dirname "$0")/.."
+ROOT=$(pwd)
 J=${1:-3}
 mkdir -p /tmp/ev; : > /tmp/ev/reeval.txt
-ls seeded | while read n; do
+ls seeded | awk '{ r=0; if (match($0, /-r[0-9]+m/)) { r=substr($0, RSTART+2, RLENGTH-3) } else if ($0 ~ /-m[0-9]/) { r=1 } print r, $0 }' | sort -k1,1nr -k2,2 | while read r n; do
   p=$(echo "$n" | cut -c1-3)
   echo "$p $n"
-done | xargs -P "$J" -L 1 sh -c 'tools/eval_seeded.py $0 seeded/$1 $1 >> /tmp/ev/reeval.txt 2>&1'
+done | xargs -P "$J" -L 1 sh -c "$ROOT"'/tools/eval_seeded.py $0 '"$ROOT"'/seeded/$1 $1 >> /tmp/ev/reeval.txt 2>&1'
 grep -c "valid=True" /tmp/ev/reeval.txt
